@@ -30,6 +30,11 @@ CHECKS = {
         text="The model predicts for every buffered message must-deliver / must-not-deliver / either (bands: limit..limit+1, expired-but-not-yet-swept) and is compared with what each Send releases; a panic on excess traffic kills the child and is reported by the parent. Virtual epoch clock (hand-made ticker) makes expiry deterministic; three real-clock histories cover the real ticker. A second unit replays each interleaving of {buffered; receive || first Send} on three topics and then demands that the sender is still served.",
         note="Trusted: the reference model (from the statement, not from the code); per-topic limit constant 100 as documented in msgbox.go; expiry judged only after three GC opportunities spaced by more than the expiry.",
         design="2/C15"),
+    "C06": dict(level="exploration", engine="hcore",
+        technique="runtime monitoring: INIT/ONMSG/SEND events of scripted full-stack sessions compared with the harness's own node->party translation, over PRNG membership maps (non-identity injective, replicas, duplicate party), loud/barrier/silent mode",
+        text="Real LoudScheme/SilentScheme objects run scripted key generation and signing over a simulated network with random delivery policies. The oracle demands: Init gets exactly the sorted party ids of the participants; every hand-over is attributed to the party id of the node it arrived from; every point-to-point message the backend emits results in exactly one transmission, to the participant node that represents the addressed party; a session with two nodes of one party returns an error everywhere; all other sessions complete with exactly-once delivery. Identifier 0 and replicas whose non-participating sibling precedes/follows them in the map are generated on purpose.",
+        note="Trusted: harness translation table and recorder. Quick tier keeps ids <= 250 so that C13's subject does not leak in; thorough uses the 16-bit range. Completion is judged with a watchdog and a replay with a 5x deadline.",
+        design="2/C06"),
 }
 
 NOT_YET = {}
